@@ -431,8 +431,11 @@ class DemoStorage(ConflictResolvingStorage):
                 k['tid'] = ZODB.utils.newTid(max(
                     self.base.lastTransaction(),
                     self.changes.lastTransaction()))
-            self.changes.tpc_begin(transaction, *a, **k)
+            # Record the transaction before the changes storage begins: if
+            # that fails (e.g. over-long meta data), the caller's tpc_abort
+            # must find it to release the commit lock.
             self._transaction = transaction
+            self.changes.tpc_begin(transaction, *a, **k)
             self._stored_oids = set()
             del self._resolved[:]
 
